@@ -42,11 +42,11 @@ class RoundTrip(Harness):
 
     def must_reach_for(self, params):
         vs = params.get("versions", list(range(4, 15)))
-        mr = ["eui64-kept", "tc-unknown", "link-keys", "mask-without-channel"]
+        mr = ["eui64-kept", "tc-unknown", "link-keys", "mask-without-channel"] + (["key-refused"] if params.get("max_keys", 2) >= 2 else [])
         if 4 in vs:
             mr.append("legacy-v4")
         if any(v >= 9 for v in vs):
-            mr += ["eui64-rewritten-nv3", "children-stored"]
+            mr += ["eui64-rewritten-nv3", "children-stored", "second-restore"]
         if any(v in (12, 13) for v in vs):
             mr.append("v13-family")
         if 14 in vs:
@@ -73,6 +73,8 @@ class RoundTrip(Harness):
         hashed_given = ctx.flag("hashed_given")
         nkeys = ctx.choice("nkeys", max_keys + 1)
         nchildren = ctx.choice("nchildren", max_children + 1)
+        preset = nv3 and ieee_mode == "different" and ctx.flag("nv3_already_holds_backup_ieee")  # second restore of the same backup
+        refuse_first = nkeys >= 2 and ctx.flag("ncp_refuses_first_key")
         num = NUMERIC[ctx.choice("numeric", len(NUMERIC))]
         pan, epan, chan, mask, upd, kseq, nfc, tfc = num
 
@@ -80,6 +82,8 @@ class RoundTrip(Harness):
             gw = GwR(loop)
             ez = make_ezsp(V, gw)
             st = NcpState(V, nv3=nv3, mfg_burned=burned)
+            if preset:
+                st.nv3_eui = [0x11, 0x00, 0xFF, 0xEE, 0xDD, 0xCC, 0xBB, 0xAA]  # == other (aa:bb:cc:dd:ee:ff:00:11), little endian
             ad = Adapter(loop, ez, st)
             gw.on_send = ad.on_send
             app = appshim.make_app()
@@ -87,13 +91,18 @@ class RoundTrip(Harness):
             old_urandom = A.os.urandom
             A.os.urandom = lambda n: bytes((0xC0 + i) & 0xFF for i in range(n))
             try:
-                cur = zt.EUI64(st.eui())
+                cur = zt.EUI64(st.factory_eui if preset else st.eui())  # the factory address is what the NCP falls back to once the token is wiped
                 other = zt.EUI64.convert("aa:bb:cc:dd:ee:ff:00:11")
                 node_ieee = {"same": cur, "different": other, "unknown": zt.EUI64.UNKNOWN}[ieee_mode]
                 tc_partner = zt.EUI64.convert("12:34:56:78:9a:bc:de:f0") if tc_known else zt.EUI64.UNKNOWN
                 nwk_key = zt.KeyData(bytes(range(0x10, 0x20)))
                 hashed = bytes(range(0x70, 0x80))
                 keys = [zigpy.state.Key(key=zt.KeyData(bytes([0x30 + j] * 16)), partner_ieee=zt.EUI64.convert("00:0d:6f:00:00:00:00:0%d" % (j + 1))) for j in range(nkeys)]
+                if refuse_first:
+                    st.refuse_partners = [list(keys[0].partner_ieee.serialize())]
+                    ctx.label("key-refused")
+                if preset:
+                    ctx.label("second-restore")
                 kids = [zt.EUI64.convert("00:0d:6f:ff:00:00:00:0%d" % (j + 1)) for j in range(nchildren)]
                 ss = {}
                 if hashed_given:
@@ -165,7 +174,7 @@ class RoundTrip(Harness):
                     ctx.check(int(got.network_key.tx_counter) == nfc, "network-key frame counter read back as %r, written %r (%s)" % (got.network_key.tx_counter, nfc, what), "readback:frame-counter")
                 ctx.check(app.state.node_info.ieee == exp_ieee, "node IEEE read back as %s (%s)" % (app.state.node_info.ieee, what), "readback:ieee")
                 gk = sorted((bytes(k.key.serialize()), str(k.partner_ieee)) for k in got.key_table)
-                wk = sorted((bytes(k.key.serialize()), str(k.partner_ieee)) for k in keys)
+                wk = sorted((bytes(k.key.serialize()), str(k.partner_ieee)) for k in keys[(1 if refuse_first else 0):])  # what the NCP accepted
                 if nkeys:
                     ctx.label("link-keys")
                 ctx.check(gk == wk, "link-key table read back as %r, written %r (%s)" % (gk, wk, what), "readback:link-keys")
@@ -190,6 +199,7 @@ def main(tier):
     c.assumptions += [
         "NCP modelled by refs/ncpstate.py: persists EUI64 tokens, network parameters, initial security state, frame counters, link-key / child / address tables and configuration; requests decoded and responses encoded by field name against each version's schema tables",
         "application built by zigpy's constructor with refs/appshim.py; the gateway is a recorder whose reset() succeeds; os.urandom replaced by a fixed pattern (default hashed TCLK)",
+        "a link key the NCP refuses (its partner address is on the model's refusal list) is not expected back; every accepted one is",
         "where the protocol version cannot store them (frame counter on v4, children before v9) no read-back is demanded",
         "the trust-centre address counts as supplied when the backup names one or when bellows must substitute the unwritten node address",
     ]
